@@ -75,7 +75,7 @@ def draw_strategy(ch: Choices) -> Dict[str, Any]:
         'backoff': draw_backoff(ch),
         'codes': ch.choice([[LISTED_CODE], None, [], [LISTED_CODE, LISTED_CODE2]], 'strategy.codes'),
         'exceptions': ch.choice([['conn'], None, [], ['conn', 'timeout'], ['timeout_base'], ['oserror'], ['identity'],
-                                 ['exception'], ['conn', 'identity']], 'strategy.exceptions'),
+                                 ['exception'], ['conn', 'identity'], ['oserror', 'conn']], 'strategy.exceptions'),
     }
 
 
@@ -128,6 +128,8 @@ def draw_scenario(ch: Choices, cancel: bool = False, max_tracers: int = 3) -> Di
         # what the caller hands over as trace context: a namespace, or an object that accepts no new attributes
         'ctx_kind': ch.choice(['namespace', 'namespace', 'object', 'slots', 'callable'], 'tracers.ctx_kind'),
         'tracer_instance_hooks': ch.flag(1, 3, 'tracers.instance_hooks'),
+        # the client takes any iterable of tracers it can walk again: a list, a tuple, a deque, a dict's values view
+        'tracer_container': ch.choice(['list', 'list', 'tuple', 'deque', 'dict_values'], 'tracers.container'),
         'hooks': ch.flag(1, 4, 'client.hooks'),
     }
     if cancel and ch.flag(1, 2, 'cancel'):
@@ -378,6 +380,14 @@ def run_scenario(w: World, scn: Dict[str, Any], client_async: bool, suffix: str 
         if scn.get('lib_tracer') is not None:
             tracers = list(tracers)
             tracers.insert(min(scn['lib_tracer'], len(tracers)), pjrpc.client.tracer.LoggingTracer())
+        kind = scn.get('tracer_container', 'list')
+        if kind == 'tuple':
+            tracers = tuple(tracers)  # type: ignore[assignment]
+        elif kind == 'deque':
+            import collections
+            tracers = collections.deque(tracers)  # type: ignore[assignment]
+        elif kind == 'dict_values':
+            tracers = {i: t for i, t in enumerate(tracers)}.values()  # type: ignore[assignment]
         ckw: Dict[str, Any] = {'strict': scn['strict'], 'tracers': tracers,
                                'retry_strategy': build_strategy(scn['client_strategy'])}
         if scn.get('id_gen') == 'shared_counter':
